@@ -51,3 +51,35 @@ let () =
         (String.concat "," (List.map digest_of_bytes (pongs_owed fs)))
     | _ -> "badargs");
   reg "closecode" (function [c] -> (match close_code (z_of_string c) with Legal -> "L" | Illegal -> "I" | Unconstrained -> "U") | _ -> "badargs")
+
+(* ---- handshake specs ----
+   headers argument: name=value pairs, hex-encoded, "|"-separated ("." = none) *)
+let str_arg s = bytes_arg s
+let pairs_arg s = if s = "." then [] else
+    List.map (fun kv -> match String.split_on_char '=' kv with [k; v] -> (str_arg k, str_arg v) | _ -> failwith "pair")
+      (String.split_on_char '|' s)
+let strs_arg s = if s = "." then [] else List.map str_arg (String.split_on_char '|' s)
+let () =
+  (* specaccept <status> <headers> <key> <offered subprotocols> *)
+  reg "specaccept" (function [st; hs; key; subs] ->
+      b2s (response_accepts (z_of_string st) (pairs_arg hs) (str_arg key) (strs_arg subs)) | _ -> "badargs");
+  (* specrequest <request bytes> -> target + header list, or "invalid" *)
+  reg "specrequest" (function [h] ->
+      (match parse_request (bytes_arg h) with
+       | None -> "invalid"
+       | Some (target, hs) -> hex_of_bytes target ^ ";" ^
+                              String.concat "|" (List.map (fun (k, v) -> hex_of_bytes k ^ "=" ^ hex_of_bytes v) hs))
+    | _ -> "badargs");
+  reg "spechost" (function [h; p] -> hex_of_bytes (host_header (str_arg h) (z_of_string p)) | _ -> "badargs")
+
+(* specitems <hex stream>: the RFC-level reading of a frame stream: whole messages and control frames in arrival order *)
+let () =
+  reg "specitems" (function [h] ->
+      let s = bytes_arg h in
+      let (fs, _) = decode_all_fast (nat_of_int (List.length s + 1)) s in
+      String.concat "," (List.map (function
+          | ItMsg (op, d) -> "M" ^ string_of_z op ^ ":" ^ digest_of_bytes d
+          | ItPing d -> "P:" ^ digest_of_bytes d | ItPong d -> "O:" ^ digest_of_bytes d
+          | ItClose d -> "C:" ^ (match close_info d with
+              | (Some c, Some r) -> string_of_z c ^ ":" ^ digest_of_bytes r | _ -> "None:None")) (items None fs))
+    | _ -> "badargs")
